@@ -110,6 +110,8 @@ pub trait Queue: Sized + Clone {
     fn into_sorted_iter(self) -> Self::Sorted;
     fn sorted_back(it: &mut Self::Sorted) -> Option<Option<(Key, Prio)>>;
     fn sorted_len(it: &Self::Sorted) -> (Option<usize>, (usize, Option<usize>));
+    /// std adaptor composition applied to the real sorted iterator type
+    fn sorted_adapt(self, comp: crate::case::Comp, a: usize, b: usize) -> Option<crate::ops_iter::AdaptOut>;
     /// PQ: into_sorted_vec; DPQ: into_descending_sorted_vec
     fn into_desc_vec(self) -> Vec<Key>;
     /// DPQ only
@@ -400,6 +402,9 @@ macro_rules! impl_pq {
             fn sorted_len(it: &Self::Sorted) -> (Option<usize>, (usize, Option<usize>)) {
                 (None, it.size_hint())
             }
+            fn sorted_adapt(self, comp: crate::case::Comp, a: usize, b: usize) -> Option<crate::ops_iter::AdaptOut> {
+                crate::ops_iter::adapt_plain(self.into_sorted_iter(), elem_owned, comp, a, b)
+            }
             fn into_desc_vec(self) -> Vec<Key> {
                 self.into_sorted_vec()
             }
@@ -463,6 +468,9 @@ macro_rules! impl_dpq {
             }
             fn sorted_len(it: &Self::Sorted) -> (Option<usize>, (usize, Option<usize>)) {
                 (Some(ExactSizeIterator::len(it)), it.size_hint())
+            }
+            fn sorted_adapt(self, comp: crate::case::Comp, a: usize, b: usize) -> Option<crate::ops_iter::AdaptOut> {
+                Some(crate::ops_iter::adapt_full(self.into_sorted_iter(), elem_owned, comp, a, b))
             }
             fn into_desc_vec(self) -> Vec<Key> {
                 self.into_descending_sorted_vec()
